@@ -82,6 +82,31 @@ def check(pid, tier, args):
         elif r.violated != expect:
             raise vlib.Infra("%s/%s should violate %s but gave %s: the spec lost its teeth" % (module, cfg, expect, r.violated))
         run.add_tlc("%s/%s%s" % (module, cfg, " (expected counterexample: %s)" % expect if expect else ""), r)
+    # 1b. the model of the standard library against the standard library: TLC-generated
+    #     behaviours of ReaderStack (BUF = 16, the smallest bufio.Reader) replayed on the
+    #     real TeeReader / bufio.Reader / io.ReadFull stack; the model must predict outcome,
+    #     bytes pulled, bytes consumed, tee length and the number of source reads exactly
+    if pid in ("C07", "C08", "C18"):
+        nb = 0
+        for mode in ("full", "single"):
+            r = vlib.tlc("MC_ReaderStack", "MC_ReaderStack_gen_%s.cfg" % mode, workers=8, heap="2g",
+                         simulate="num=%d" % (300 if tier == "quick" else 5000), depth=80, tlc_seed=vlib.seed(), timeout=1800)
+            if r.violated:
+                raise vlib.Infra("ReaderStack generation violated %s" % r.violated)
+            beh = sorted({json.dumps(b, sort_keys=True) for b in r.printed if isinstance(b, dict) and "sched" in b})
+            if len(beh) < 100:
+                raise vlib.Infra("too few ReaderStack behaviours generated (%d)" % len(beh))
+            path = os.path.join(vlib.scratch(), "rs_%s.ndjson" % mode)
+            open(path, "w").write("\n".join(beh) + "\n")
+            p = vlib.run([drive, "bufiomodel", "-cases", path], timeout=1800)
+            st = json.loads(p.stdout.strip().splitlines()[-1])
+            if st["mismatches"]:
+                raise vlib.Infra("ReaderStack (ReadMode=%s) mispredicts the real bufio/tee stack on %d of %d behaviours: %s" % (
+                    mode, st["mismatches"], st["behaviours"], st["first"][:600]))
+            nb += st["behaviours"]
+            run.cov["models"].append({"model": "MC_ReaderStack/gen_%s (simulation; behaviours replayed on the real bufio stack)" % mode,
+                                      "distinct_states": 0, "states_generated": r.generated, "depth": 80, "wall_s": round(r.wall, 2), "bounds": {"BUF": 16, "MaxN": 44}})
+        run.cov["readerstack_behaviours_replayed_on_real_bufio"] = nb
     # 2. corpus from TLC-generated container files, real loaders, instrumented source
     cases = gen_cases(run, tier)
     out = os.path.join(vlib.scratch(), "loads")
